@@ -156,7 +156,7 @@ ALL_COMPS = [c for n in range(3, 8) for c in compositions(n)]     # 1 + 3 + 7 + 
 def pca_data(rng, n, d, kind):
     X = rng.normal(size=(n, d)) * rng.uniform(0.5, 3.0, d) * np.linspace(1.0, 2.5, d) + rng.normal(size=d) * 2
     if kind == "large_values":
-        X = X * 10.0 ** rng.uniform(2, 6.5)                # raw sensor / pixel-sum magnitudes (menpo's documented cut-off is an absolute 1e-10)
+        X = X * 10.0 ** rng.uniform(5, 10)                 # raw sensor / pixel-sum magnitudes (menpo's documented cut-off is an absolute 1e-10)
     if kind == "zero_column":
         X[:, rng.integers(0, d)] = 0.0                     # a feature that is identically zero (masked / padded pixel)
     elif kind == "zero_mean_first_batch":
@@ -259,6 +259,13 @@ def w_pca_object(ctx, rng, i):
     ctx.count_case(("pca_object", first, step, stream), nontrivial=True)
 
 
+def cond_tol(X):
+    """Relative tolerance for comparing two precision matrices computed from X: inverting a block covariance costs
+    cond x machine-epsilon digits (every block is a principal sub-matrix of the full covariance)."""
+    c = np.linalg.cond(np.cov(np.asarray(X, dtype=float), rowvar=False))
+    return min(1e-4, max(1e-7, 1e-13 * float(c)))
+
+
 def w_gmrf(ctx, rng, i):
     from menpo.model import GMRFVectorModel
     kind = ["edgeless", "chain", "cycle", "tree", "random", "directed"][i % 6]
@@ -287,7 +294,7 @@ def w_gmrf(ctx, rng, i):
     Q1, Q2 = gmrfmon.dense(m.precision), gmrfmon.dense(m2.precision)
     nrm = max(1e-300, np.abs(Q2).max())
     ctx.tap("split_vs_split", "calls"); ctx.tap("split_vs_split", "checked")
-    if _amax(Q1 - Q2) > (1e-7 if dtype == np.float64 else 1e-3) * nrm:
+    if _amax(Q1 - Q2) > (cond_tol(X) if dtype == np.float64 else 1e-3) * nrm:
         ctx.fail("two_splittings_of_the_same_data_disagree", cls="GMRFVectorModel", mech="%s:%s" % ("sparse" if sparse else "dense", mode))
     # a model that was not built incremental refuses increments
     nm = GMRFVectorModel(X[:n0].copy(), g, mode=mode, sparse=sparse, bias=bias, incremental=False)
@@ -334,7 +341,7 @@ def w_gmrf_object(ctx, rng, i):
     Q1, Q2 = gmrfmon.dense(m.precision), gmrfmon.dense(b.precision)
     if m.n_samples != n or _amax(m.mean_vector - b.mean_vector) > 1e-9 * max(1.0, np.abs(X).max()):
         ctx.fail("object_backed_incremental_differs_from_batch", cls="GMRFModel", mech="mean_or_count:" + ("stream" if stream else "lists"))
-    elif Q1.shape != Q2.shape or _amax(Q1 - Q2) > 1e-7 * max(1e-300, np.abs(Q2).max()):
+    elif Q1.shape != Q2.shape or _amax(Q1 - Q2) > cond_tol(X) * max(1e-300, np.abs(Q2).max()):
         ctx.fail("object_backed_incremental_differs_from_batch", cls="GMRFModel", mech="precision:" + ("stream" if stream else "lists"))
     ctx.count_case(("gmrf_object", V, len(incs), sparse, stream), nontrivial=True)
 
